@@ -7,6 +7,7 @@ import Proofs.C07_Inside
 import Proofs.C07_Poscar
 import Proofs.C07_Bounds
 import Proofs.C07_Hybrid
+import Proofs.C07_Index
 namespace Atomman.C07
 open Atomman
 set_option linter.unusedSimpArgs false
@@ -478,6 +479,19 @@ theorem requested_units_in_snippet (s : Sys) (un st : String) (na : Option Nat) 
   exact ⟨_, h1, h2, h3, h⟩
 
 example : resolveArgs (some "si") none none (some ⟨"metal", "charge", 2⟩) 3 = ("si", "charge", 2) := by decide
+
+/-! ## per-atom tensors (theorems in `C07_Index`) — non-vacuity -/
+
+/-- a two-atom system with a non-square, non-symmetric per-atom tensor `g` of shape (2, 3). -/
+def exTensorSys : Sys :=
+  { exSys with props := [{ name := "g", isInt := false, ncomp := 6,
+                           vals := [[1, 2, 3, 4, 5, 6], [7, 8, 9, 10, 11, 12]] }] }
+
+example : dumpStdCol "g" = none ∧ isPosLike "g" = false ∧ (exTensorSys.prop? "g").isSome = true ∧
+    propCells exTensorSys exUnits [1, 2] exTensorSys.pos (dumpCol "g" [2, 3]) 1
+      = .ok [.num 7, .num 8, .num 9, .num 10, .num 11, .num 12] ∧
+    (indexNames "g" [2, 3])[1 * 3 + 2]? = some "g[1][2]" := by
+  decide +kernel
 
 /-! ## the generated column / unit tables against the hand-encoded LAMMPS manual tables -/
 
